@@ -10,7 +10,7 @@ use crate::tape::Tape;
 use crate::with_spec;
 
 pub const RULE: &str = "(specification, valid document with known-size masters only, junk run of 1-12 bytes drawn from the byte values that are not the first byte of any id of the specification, 0x00 included) \
-× EVERY position between two consecutive tags as insertion point (exhaustive per document: after a leaf, after a master header, after the last child of a master when a sibling follows) + one junk run at a random non-boundary position. \
+× one buffer capacity from {default, 16, 17, 24, 32, 64, len} and one source (slice, or reads of 1-47 bytes) × EVERY position between two consecutive tags as insertion point (exhaustive per document: after a leaf, after a master header, after the last child of a master when a sibling follows) + one junk run at a random non-boundary position. \
 From the reference encoder's layout the harness decides whether the precondition holds (the tag following the junk still fits every enclosing known-size master after the shift). Precondition true: items before the junk equal the undamaged parse (same offsets), \
 exactly one error, try_recover() is Ok, the remaining items equal the rest of the undamaged parse (non-End offsets shifted by the junk length, Ends of masters opened before the junk unchanged), then None. \
 Every case: try_recover never panics, fails only with UnexpectedEOF / ReadError, never moves backwards. One evaluation per (document, insertion point). Non-trivial: precondition true with the following tag at depth >= 2; distinct by (document, position, junk).";
@@ -35,6 +35,18 @@ fn stage(i: &Input, c: &mut Case) -> Result<(), String> {
     let k = 1 + t.below(12);
     let junk: Vec<u8> = (0..k).map(|_| if t.chance(1, 5) { 0 } else { allowed[t.below(allowed.len())] }).collect();
     let rand_pos = t.below(bytes.len().max(1));
+    let capacity = match t.weighted(&[4, 4, 1]) {
+        0 => None,
+        1 => Some(*t.pick(&[16usize, 17, 24, 32, 64])),
+        _ => Some(bytes.len().max(16)),
+    };
+    let chunk = match t.weighted(&[4, 3, 2]) {
+        0 => 0usize,
+        1 => 1 + t.below(7),
+        _ => 8 + t.below(40),
+    };
+    c.label_if(capacity.is_some(), "small_capacity");
+    c.label_if(chunk > 0, "chunked_source");
     c.label(if d.spec.is_rich() { "spec_macro_derived" } else { "spec_generated" });
     c.key(&(&bytes, &junk));
     c.sample_with(|| format!("{} | junk {} inserted at every tag boundary of the {}-byte encoding", describe_doc(&d), hex(&junk), bytes.len()));
@@ -70,8 +82,10 @@ fn stage(i: &Input, c: &mut Case) -> Result<(), String> {
                 }
             };
             let ctx = |m: String, hist: &Vec<String>| format!("{}\n  junk {} inserted at offset {} (precondition {})\n  history: {}\n  undamaged: {}\n  doc: {}", m, hex(&junk), p, pre, hist.join(", "), render_obs(&u), render_forest(&d.forest));
-            let cfg = ReadCfg { max_size: safe_max_size(&dmg, MaxSize::Untouched).0, ..ReadCfg::default() };
-            let mut rd = match Rd::<T, _>::new(&dmg[..], &cfg) {
+            let cfg = ReadCfg { max_size: safe_max_size(&dmg, MaxSize::Untouched).0, capacity, ..ReadCfg::default() };
+            // source: one slice, or the damaged stream handed out in small reads (so that the scan has to refill the buffer)
+            let steps: Vec<RStep> = if chunk == 0 { vec![] } else { (0..dmg.len().div_ceil(chunk)).map(|_| RStep::Chunk(chunk)).collect() };
+            let mut rd = match Rd::<T, _>::new(ScriptRead::new(&dmg[..], steps), &cfg) {
                 Ok(r) => r,
                 Err(e) => return Err(format!("constructor panicked: {}", e)),
             };
@@ -217,6 +231,8 @@ pub fn run(rc: &mut RunCtx) {
     rc.require_label("junk_at_every_boundary", "pre_true", 300_000);
     rc.require_label("junk_at_every_boundary", "pre_true_depth2plus", 50_000);
     rc.require_label("junk_at_every_boundary", "pre_false", 50_000);
+    rc.require_label("junk_at_every_boundary", "small_capacity", 200_000);
+    rc.require_label("junk_at_every_boundary", "chunked_source", 200_000);
     if !rc.quick() {
         rc.run_fuzz(Some(STAGES[0]), 250);
     }
